@@ -291,7 +291,7 @@ def _first_key(v):
 
 def _def_loops(ctx, rel, prefix_text, seq, suffix_of, what):
     """loops `for v in <seq>` whose body is `<prefix_text><suffix(v)> <sep> loop.index0`."""
-    items = J.flatten(ctx.tree, rel, {})
+    items = J.propagate_sets(J.flatten(ctx.tree, rel, {}))       # macro parameters / `{% set %}` variables read as what they stand for
     ctx.saw(rel)
     hits = []
     for it, st in J.walk_items(items):
@@ -317,7 +317,7 @@ def _r4_defs(ctx, pkg):
     for rel in (MACROS, PYIDX):
         _def_loops(ctx, rel, "IDX_ELEM_", NELEM, _first_key, "IDX_ELEM_ definitions")
         # species loop: text 'IDX_' but not 'IDX_ELEM_'
-        items = J.flatten(ctx.tree, rel, {})
+        items = J.propagate_sets(J.flatten(ctx.tree, rel, {}))
         hits = [it for it, st in J.walk_items(items) if it[0] == "for" and re.search(r"IDX_(?!ELEM_)", "".join(x[1] for x in it[3] if x[0] == "text"))]
         key = f"{rel.split('/')[-1]}:IDX_ definitions"
         if len(hits) != 1:
